@@ -63,6 +63,15 @@ def trsv_oracle(chk, cid, prog, eff, p, cfgname):
         pmap = {1: chr(v['uplo']), 2: chr(v['trans']), 3: chr(v['diag'])}
         tv = lf.calls(trsv)
         gv = lf.calls(gemv)
+        own = lf.calls(p + ('lsolve' if u == 'L' else 'usolve'))     # bundled kernels (build without USE_VENDOR_BLAS), no-transpose only
+        if not tv and own and t == 'N':
+            other = lf.calls(p + ('usolve' if u == 'L' else 'lsolve'))
+            ex.check(lf, not other, 'bundled-kernel', sel, 'uplo = %s must use %s, not %s' % (u, own[0]['name'], other[0]['name'] if other else ''), own[0]['line'])
+            want_dir = 'up' if u == 'L' else 'down'
+            dirs = {e['loops'][0][0] if e['loops'] else None for e in own}
+            ex.check(lf, dirs == {want_dir}, 'sweep-direction', sel, 'supernodes must be swept %s for uplo=%s, trans=N; the enclosing loop runs %s'
+                     % ('first to last' if want_dir == 'up' else 'last to first', u, sorted(map(str, dirs))), own[0]['line'])
+            continue
         if not ex.check(lf, bool(tv), 'dense-kernel-reached', sel, 'no dense triangular kernel is reached for an accepted flag combination'):
             continue
         tl = 'N' if t == 'N' else ('C' if (cplx and t == 'C') else 'T')
